@@ -17,6 +17,9 @@ struct types.
 Hooks (macros supplied by the including file, see harness/C08_rt.h):
     OBS_BR(site, cond)          before every conditional br / switch
     OBS_ADDR(site, ptr)         before every load / store / mem intrinsic operand
+                                (not emitted when ptr is a link-time constant: an alloca
+                                site -- a static object here --, a global, or a constant-index
+                                GEP/bitcast of one; such an address is the same in every run)
     OBS_LEN(site, len)          length of a mem intrinsic
     OBS_DIV(site, a, b)         before udiv/sdiv/urem/srem
     OBS_CALL(site, fnptr)       before every indirect call
@@ -552,6 +555,7 @@ class Result:
         self.sites = {}        # id -> description
         self.funcs = []        # translated IR function names
         self.ninstr = 0
+        self.elided = 0
 
 
 class Translator:
@@ -567,6 +571,7 @@ class Translator:
         self.fp_defs = []
         self.static_asserts = []
         self.ninstr = 0
+        self.elided = 0   # loads/stores whose address is a link-time constant (alloca site, global): not observed
 
     # ---- layout -------------------------------------------------------
     def resolve(self, t):
@@ -1098,11 +1103,48 @@ class Translator:
         def ts_of(toks, text):
             return TS(toks, text)
 
+        defs = {}
         for (lab, pl) in parsed:
             for (dest, toks, text) in pl:
                 if dest is None:
                     continue
                 vtypes[dest] = self.result_type(toks, text, vtypes)
+                defs[dest] = (toks, text)
+
+        def lowbits(c, depth=0):
+            """C expression (uint64_t) of the low 4 bits of integer value c if c is built from
+            ptrtoint leaves by or/and/xor/trunc/zext (bitwise ops commute with truncation); else None"""
+            if depth > 6:
+                return None
+            if c[0] == 'int':
+                return "((uint64_t)%d)" % (c[1] & 15)
+            if c[0] != 'local' or c[1] not in defs:
+                return None
+            toks, text = defs[c[1]]
+            op = toks[0][1]
+            t2 = TS(toks[1:], text)
+            if op == 'ptrtoint':
+                pty = parse_type(t2)
+                pc = parse_const(t2, pty)
+                return "IR_PTR_LOWBITS(%s)" % self.const_expr(pc, pty, env)
+            if op in ('trunc', 'zext'):
+                fty = parse_type(t2)
+                if self.resolve(fty)[0] != 'int' or self.resolve(fty)[1] < 4:
+                    return None
+                return lowbits(parse_const(t2, fty), depth + 1)
+            if op in ('or', 'and', 'xor'):
+                ty = parse_type(t2)
+                x = parse_const(t2, ty)
+                t2.expect(',')
+                y = parse_const(t2, ty)
+                lx = lowbits(x, depth + 1)
+                ly = lowbits(y, depth + 1)
+                if lx is None or ly is None:
+                    return None
+                if x[0] == 'int' and y[0] == 'int':
+                    return None
+                return "(%s %s %s)" % (lx, {'or': '|', 'and': '&', 'xor': '^'}[op], ly)
+            return None
 
         def env(local):
             if local not in vtypes:
@@ -1117,6 +1159,27 @@ class Translator:
             ty = parse_type(ts)
             skip_attrs(ts)
             return ty, val(ts, ty)
+
+        static_ptrs = set()
+
+        def is_static(c):
+            """pointer value that is a link-time constant address (alloca site = static object, global)"""
+            if c[0] == 'local':
+                return c[1] in static_ptrs
+            if c[0] == 'global':
+                return True
+            if c[0] == 'cexpr' and c[1] == 'gep':
+                return is_static(c[4]) and all(iv[0] == 'int' for (_, iv) in c[5])
+            if c[0] == 'cexpr' and c[1] == 'cast' and c[2] == 'bitcast':
+                return is_static(c[4])
+            return False
+
+        def tptr(ts):
+            """typed pointer operand -> (type, C expr, is_static)"""
+            ty = parse_type(ts)
+            skip_attrs(ts)
+            c = parse_const(ts, ty)
+            return ty, self.const_expr(c, ty, env), is_static(c)
 
         # collect phis: block -> list of (dest, ty, {pred: value expr-thunk})
         phis = {}
@@ -1174,9 +1237,22 @@ class Translator:
                     while ts.peek()[1] in BIN_FLAGS:
                         ts.next()
                     ty = parse_type(ts)
-                    a = val(ts, ty)
+                    ca = parse_const(ts, ty)
                     ts.expect(',')
-                    b = val(ts, ty)
+                    cb = parse_const(ts, ty)
+                    a = self.const_expr(ca, ty, env)
+                    b = self.const_expr(cb, ty, env)
+                    if op == 'and':
+                        # alignment test on an address: (ptrtoint p) & C with 0 <= C < 16.  Emitted through
+                        # IR_PTR_LOWBITS so that CBMC (whose pointer->integer model is object|offset, i.e.
+                        # object bases aligned) can constant-fold it from the offset; natively the raw address.
+                        for (cx, cy) in ((ca, cb), (cb, ca)):
+                            if cy[0] == 'int' and 0 <= cy[1] < 16 and cx[0] == 'local':
+                                lb = lowbits(cx)
+                                if lb is not None:
+                                    a = "((%s)%s)" % (self.int_ctype(self.resolve(ty)[1]), lb)
+                                    b = self.int_lit(cy[1], self.resolve(ty)[1])
+                                    break
                     site = self.new_site(fn, 'div', text) if op in ('udiv', 'sdiv', 'urem', 'srem') else None
                     e, pre = self.bin_expr(op, ty, a, b, site)
                     if pre:
@@ -1191,7 +1267,10 @@ class Translator:
                     out.append(ind + "%s = %s;" % (d, self.icmp_expr(pred, ty, a, b)))
                 elif op in CAST_OPS:
                     fty = parse_type(ts)
-                    v = val(ts, fty)
+                    c_ = parse_const(ts, fty)
+                    if op == 'bitcast' and is_static(c_):
+                        static_ptrs.add(dest)
+                    v = self.const_expr(c_, fty, env)
                     ts.expect('to')
                     tty = parse_type(ts)
                     out.append(ind + "%s = %s;" % (d, self.cast_expr(op, fty, v, tty)))
@@ -1226,20 +1305,24 @@ class Translator:
                     an = "%s%s_a%s" % (self.px, cname(fn), cname(dest[1:]))
                     allocas.append("static %s __attribute__((aligned(%d)));" % (self.decl(ty, an), max(al or 1, self.alignof(ty))))
                     out.append(ind + "%s = (unsigned char *)&%s;" % (d, an))
+                    static_ptrs.add(dest)
                 elif op == 'load':
                     if ts.accept('atomic'):
                         raise Unsupported("atomic load")
                     ts.accept('volatile')
                     ty = parse_type(ts)
                     ts.expect(',')
-                    pty, p = tval(ts)
+                    pty, p, st = tptr(ts)
                     rt = self.resolve(ty)
                     if rt[0] == 'int' and rt[1] not in (8, 16, 32, 64, 128):
                         raise Unsupported("load of i%d" % rt[1])
                     if rt[0] not in ('int', 'ptr'):
                         raise Unsupported("load of %r" % (rt[0],))
-                    site = self.new_site(fn, 'load', text)
-                    out.append(ind + "OBS_ADDR(%d, %s);" % (site, p))
+                    if st:
+                        self.elided += 1
+                    else:
+                        site = self.new_site(fn, 'load', text)
+                        out.append(ind + "OBS_ADDR(%d, %s);" % (site, p))
                     out.append(ind + "%s = IR_LOAD(%s, %s);" % (d, self.val_ctype(ty), p))
                 elif op == 'store':
                     if ts.accept('atomic'):
@@ -1247,14 +1330,17 @@ class Translator:
                     ts.accept('volatile')
                     ty, v = tval(ts)
                     ts.expect(',')
-                    pty, p = tval(ts)
+                    pty, p, st = tptr(ts)
                     rt = self.resolve(ty)
                     if rt[0] == 'int' and rt[1] not in (8, 16, 32, 64, 128):
                         raise Unsupported("store of i%d" % rt[1])
                     if rt[0] not in ('int', 'ptr'):
                         raise Unsupported("store of %r" % (rt[0],))
-                    site = self.new_site(fn, 'store', text)
-                    out.append(ind + "OBS_ADDR(%d, %s);" % (site, p))
+                    if st:
+                        self.elided += 1
+                    else:
+                        site = self.new_site(fn, 'store', text)
+                        out.append(ind + "OBS_ADDR(%d, %s);" % (site, p))
                     out.append(ind + "IR_STORE(%s, %s, %s);" % (self.val_ctype(ty), p, v))
                 elif op == 'getelementptr':
                     ts.accept('inbounds')
@@ -1263,12 +1349,18 @@ class Translator:
                     pty = parse_type(ts)
                     if self.resolve(pty)[0] != 'ptr':
                         raise Unsupported("vector GEP")
-                    base = val(ts, pty)
+                    bc_ = parse_const(ts, pty)
+                    base = self.const_expr(bc_, pty, env)
                     idx = []
+                    allc = True
                     while ts.accept(','):
                         ity = parse_type(ts)
                         iv = parse_const(ts, ity)
+                        if iv[0] != 'int':
+                            allc = False
                         idx.append((ity, self.idx_operand(ity, iv, env)))
+                    if allc and is_static(bc_):
+                        static_ptrs.add(dest)
                     off = self.gep_offset(sty, idx)
                     if self.is_fnptr(vtypes[dest]):
                         raise Unsupported("GEP producing a function pointer")
@@ -1730,6 +1822,7 @@ class Translator:
         r.sites = self.sites
         r.funcs = sorted(fbodies)
         r.ninstr = self.ninstr
+        r.elided = self.elided
         return r
 
     def struct_defs_sorted(self):
